@@ -33,22 +33,24 @@ import (
 //	Op "R": compile N generated types numbered From.. (Marshal+Unmarshal of each when Batch == 0, else PretouchMany in
 //	        batches of Batch) - used to push the caches through their rehash thresholds
 type Step struct {
-	Op     string `json:"op"`
-	T      int    `json:"t,omitempty"`
-	W      int    `json:"w,omitempty"`
-	Seed   uint64 `json:"seed,omitempty"`
-	Cfg    int    `json:"cfg,omitempty"`
-	Ts     []int  `json:"ts,omitempty"`
-	Inline int    `json:"inline,omitempty"`
-	Rec    int    `json:"rec,omitempty"`
-	N      int    `json:"n,omitempty"`
-	From   int    `json:"from,omitempty"`
-	Batch  int    `json:"batch,omitempty"`
-	Tiny   bool   `json:"tiny,omitempty"` // R: one-field struct types (cheap to compile) instead of GenType
-	Mut    uint64 `json:"mut,omitempty"`  // U: damage the document (type mismatches and / or syntax errors), see c09t.Damage
-	Doc    string `json:"doc,omitempty"`  // U: use exactly this document
-	K      int    `json:"k,omitempty"`    // X: kind of failing call (c09t.FloodKindName); D: shape; V: kind
-	G      int    `json:"g,omitempty"`    // X: goroutines (0/1: sequential)
+	Op       string `json:"op"`
+	T        int    `json:"t,omitempty"`
+	W        int    `json:"w,omitempty"`
+	Seed     uint64 `json:"seed,omitempty"`
+	Cfg      int    `json:"cfg,omitempty"`
+	Ts       []int  `json:"ts,omitempty"`
+	Inline   int    `json:"inline,omitempty"`
+	Rec      int    `json:"rec,omitempty"`
+	N        int    `json:"n,omitempty"`
+	From     int    `json:"from,omitempty"`
+	Batch    int    `json:"batch,omitempty"`
+	Tiny     bool   `json:"tiny,omitempty"`     // R: one-field struct types (cheap to compile) instead of GenType
+	Mut      uint64 `json:"mut,omitempty"`      // U: damage the document (type mismatches and / or syntax errors), see c09t.Damage
+	Doc      string `json:"doc,omitempty"`      // U: use exactly this document
+	K        int    `json:"k,omitempty"`        // X: kind of failing call (c09t.FloodKindName); D: shape; V: kind
+	G        int    `json:"g,omitempty"`        // X: goroutines (0/1: sequential)
+	Zero     bool   `json:"zero,omitempty"`     // M: the value is c09t.ZeroValue (all scalars zero, containers one element deep)
+	OmitNull bool   `json:"omitnull,omitempty"` // P: option.WithCompileEncOnlyOmitNull(true)
 }
 
 type Scenario struct {
@@ -97,6 +99,9 @@ func doStep(s Step) string {
 	switch s.Op {
 	case "M":
 		v := c09t.Value(stepType(s), s.Seed).Elem().Interface()
+		if s.Zero {
+			v = c09t.ZeroValue(stepType(s)).Elem().Interface()
+		}
 		b, err := configs[s.Cfg].Marshal(v)
 		if err != nil {
 			return errClass(err)
@@ -135,6 +140,9 @@ func doStep(s Step) string {
 		}
 		if s.Rec > 0 {
 			opts = append(opts, option.WithCompileRecursiveDepth(s.Rec-1))
+		}
+		if s.OmitNull {
+			opts = append(opts, option.WithCompileEncOnlyOmitNull(true))
 		}
 		var err error
 		if len(ts) == 1 {
@@ -387,13 +395,20 @@ func readable(s Step) string {
 		} else if s.Mut > 0 {
 			extra = fmt.Sprintf(", damaged doc %d", s.Mut)
 		}
+		if s.Zero {
+			extra += ", zero value"
+		}
 		return fmt.Sprintf("%s(cfg%d, "+wr[s.W]+", seed %d%s)", map[string]string{"M": "Marshal", "U": "Unmarshal"}[s.Op], s.Cfg, name(s.T), s.Seed, extra)
 	case "P":
 		var ns []string
 		for _, t := range s.Ts {
 			ns = append(ns, fmt.Sprintf(wr[s.W], name(t)))
 		}
-		return fmt.Sprintf("PretouchMany([%s], inline=%d, rec=%d)", strings.Join(ns, ", "), s.Inline, s.Rec-1)
+		on := ""
+		if s.OmitNull {
+			on = ", EncOnlyOmitNull"
+		}
+		return fmt.Sprintf("PretouchMany([%s], inline=%d, rec=%d%s)", strings.Join(ns, ", "), s.Inline, s.Rec-1, on)
 	case "X":
 		return fmt.Sprintf("%d x %d failing calls: %s", max1(s.G), s.N, c09t.FloodKindName[s.K%c09t.NFloodKinds])
 	case "D":
@@ -534,6 +549,49 @@ func genPool(r *rng.R, id string) Scenario {
 	return sc
 }
 
+// compile-option scenarios: a type is pretouched with a SEMANTIC compile option (EncOnlyOmitNull changes, by design, the codec
+// of the pretouched type itself and of its pointer twin); the probes only use OTHER types that contain it inline (enclosing
+// struct, []T, map[string]T, struct{X T}, [2]T) - their codecs are compiled afterwards with default options and must not change
+func genCompileOpts(r *rng.R, id string) Scenario {
+	// Only probes whose OWN compilation (default options, MaxInlineDepth 3) inlines Omit: depth of Omit <= 2 with
+	// struct field / slice / array / pointer = +1, map value = +2.  Deeper occurrences are compiled as OP_recurse and are
+	// served - by design - by whatever codec is cached for Omit, including its EncOnlyOmitNull setting.
+	omit, outer, outer2 := c09t.CatalogueIndex("Omit"), c09t.CatalogueIndex("OmitOuter"), c09t.CatalogueIndex("OmitOuter2")
+	sc := Scenario{ID: id}
+	for _, w := range []int{2, 3, 4, 5} {
+		sc.Probes = append(sc.Probes, Step{Op: "M", T: omit, W: w, Zero: true, Cfg: r.Intn(3)})
+	}
+	sc.Probes = append(sc.Probes, Step{Op: "M", T: outer, W: 0, Zero: true}, Step{Op: "M", T: outer, W: 0, Seed: r.U64() % 1000, Cfg: r.Intn(2)})
+	for _, w := range []int{0, 1, 2, 4, 5} {
+		sc.Probes = append(sc.Probes, Step{Op: "M", T: outer2, W: w, Zero: r.Chance(2, 3), Seed: r.U64() % 1000, Cfg: r.Intn(2)})
+	}
+	sc.Probes = append(sc.Probes, Step{Op: "U", T: outer, Seed: r.U64() % 1000}, Step{Op: "M", T: c09t.CatalogueIndex("Emb"), Zero: true})
+	// shuffle
+	for i := len(sc.Probes) - 1; i > 0; i-- {
+		j := r.Intn(i + 1)
+		sc.Probes[i], sc.Probes[j] = sc.Probes[j], sc.Probes[i]
+	}
+	sc.Preludes = append(sc.Preludes, nil)
+	for h := 0; h < 4; h++ {
+		p := Step{Op: "P", Ts: []int{omit}, OmitNull: h != 3}
+		if r.Chance(1, 3) {
+			p.Ts = append(p.Ts, c09t.CatalogueIndex("Flat"))
+		}
+		if r.Chance(1, 2) {
+			p.Inline = 1 + r.Intn(5)
+		}
+		if r.Chance(1, 2) {
+			p.Rec = 1 + r.Intn(4)
+		}
+		pre := []Step{p}
+		if r.Chance(1, 2) {
+			pre = append(pre, genProbe(r, safeTypes()[:10]))
+		}
+		sc.Preludes = append(sc.Preludes, pre)
+	}
+	return sc
+}
+
 func genHeavy(r *rng.R, id string, k int) Scenario {
 	sc := genScenario(r, id, false)
 	n := 2100 + r.Intn(300)
@@ -602,6 +660,9 @@ func histMain() {
 		r := rng.New(*seed ^ 0xc09)
 		for i := 0; i < *n; i++ {
 			scs = append(scs, genScenario(r.Fork(uint64(i)), fmt.Sprintf("gen-%d-%d", *seed, i), i%8 == 7))
+		}
+		for i := 0; i < *coptN; i++ {
+			scs = append(scs, genCompileOpts(r.Fork(uint64(800000+i)), fmt.Sprintf("copts-%d-%d", *seed, i)))
 		}
 		for i := 0; i < *poolN; i++ {
 			scs = append(scs, genPool(r.Fork(uint64(700000+i)), fmt.Sprintf("pool-%d-%d", *seed, i)))
